@@ -14,7 +14,10 @@ import (
 	"github.com/pbenner/autodiff/algorithm/newton"
 )
 
-func verif_C07_newtonRoot(maxIter, constrained int) {
+// jmode 0: the Jacobian is an uninterpreted function of the point; 1: it is the
+// constant 1 (the Newton step is then the residual itself, computed exactly, so
+// that the bit-precise solver can decide which steps vanish against x)
+func verif_C07_newtonRoot(maxIter, constrained, jmode int) {
 	x0v := VerifFinite64("x0")
 	eps := VerifFinite64("eps")
 	VerifAssume(eps > 0)
@@ -29,7 +32,11 @@ func verif_C07_newtonRoot(maxIter, constrained int) {
 		e := y.AT(0)
 		e.SetFloat64(VerifUF("F", v))
 		e.Alloc(1, 1)
-		e.SetDerivative(0, VerifUF("J", v))
+		if jmode == 1 {
+			e.SetDerivative(0, 1.0)
+		} else {
+			e.SetDerivative(0, VerifUF("J", v))
+		}
 		return y, nil
 	}
 	hook := newton.HookRoot{func(x ConstVector, J ConstMatrix, y ConstVector) bool {
@@ -59,5 +66,5 @@ func verif_C07_newtonRoot(maxIter, constrained int) {
 }
 
 func init() {
-	VerifRegister("verif_C07_newtonRoot", func(a []int) { verif_C07_newtonRoot(a[0], a[1]) })
+	VerifRegister("verif_C07_newtonRoot", func(a []int) { verif_C07_newtonRoot(a[0], a[1], a[2]) })
 }
